@@ -53,6 +53,16 @@ CHECKS["C14"] = dict(
     technique="Lean 4 proof (ZMod p, ring) over a model translated from the intrinsics code + CPU correspondence",
     design="§4 C14", note=NOTE_BASE)
 
+CHECKS["C10"] = dict(
+    text=("Machine-checked theorems (Props/C10.lean) about the hand model Model/Inv.lean (the Euclid loop of Goldilocks::inv, "
+          "exp's square-and-multiply loop, div = mul∘inv, written over the GENERATED scalar ops): inv refuses exactly the zero "
+          "class (both representations), otherwise returns a canonical r with r·a = 1 in ZMod p (uses a kernel-checked proof that "
+          "p is prime, Lucas test); div(a,b)·b = a; exp(b,e) = b^e for all 64-bit e; residue-class independence. Termination of "
+          "inv is a proof obligation of the model's definition. Tie: correspondence of model and compiled functions incl. the "
+          "exit status of a forked child on zero operands."),
+    technique="Lean 4 proof over a hand-written model (well-founded recursion, invariant) + correspondence with the implementation",
+    design="§4 C10", note=NOTE_BASE + " Hand model tied to the code only on the executed cases (counts in the evidence).")
+
 NOT_YET = {
 }
 
